@@ -101,6 +101,7 @@ static bool g_active = false;
 static Params P;
 static Stats S;
 static Rng sched_rng, frng, erng;
+static bool g_fwf_armed=false, g_fwf_failing=false; static int g_fwf_skip=0, g_fwf_errno=0;   // armed file-write fault (simulated file system)
 static std::vector<std::string> g_entropy_opens;   // per open() of the simulated /dev/urandom that has been closed again: the bytes it was served, in order
 static int64_t g_now_us = 0;
 static uint64_t g_hash = 0;
@@ -129,6 +130,8 @@ void trace_mix(uint64_t v){ g_hash = (g_hash ^ v) * 1099511628211ULL; }
 Rng &fault_rng(){ return frng; }
 Rng &entropy_rng(){ return erng; }
 const std::vector<std::string> &entropy_by_open(){ return g_entropy_opens; }
+void arm_file_write_fault(int skip,int err){ g_fwf_armed=true; g_fwf_failing=false; g_fwf_skip=skip<0?0:skip; g_fwf_errno=err; }
+void disarm_file_write_fault(){ g_fwf_armed=false; g_fwf_failing=false; }
 const std::string &trace_text(){ return g_text; }
 void tracef(const char *fmt,...){
 	if(!P.text_trace) return;
@@ -258,7 +261,7 @@ std::map<std::string,uint64_t> &probes();
 
 void begin(const Params &p){
 	P = p; S = Stats();
-	sched_rng.seed(p.sched_seed); frng.seed(p.fault_seed ^ 0xFA17); erng.seed(p.fault_seed ^ 0xE27809); g_entropy_opens.clear();
+	sched_rng.seed(p.sched_seed); frng.seed(p.fault_seed ^ 0xFA17); erng.seed(p.fault_seed ^ 0xE27809); g_entropy_opens.clear(); g_fwf_armed=false; g_fwf_failing=false;
 	g_now_us = p.start_time_s * 1000000LL; g_hash = 1469598103934665603ULL; g_text.clear();
 	for(auto t:threads) delete t;
 	threads.clear(); actors.clear(); actor_prio.clear(); in_actor=false; tape_pos=0; last_choice=0;
@@ -703,6 +706,9 @@ static ssize_t file_write(Obj&o,const struct iovec*iov,int n){
 	if(P.p_file_eintr && frng.chance(P.p_file_eintr)){ S.file_eintr++; trace_mix(0xF3); errno=EINTR; return -1; }
 	std::string all; for(int i=0;i<n;i++) all.append((const char*)iov[i].iov_base,iov[i].iov_len);
 	if(all.empty()) return 0;
+	// armed disk fault (full disk / I/O error): after `skip` more writes the disk takes a last partial write (when the write is long enough to be cut), then every write fails until disarmed
+	if(g_fwf_armed){ if(g_fwf_failing){ S.file_write_failed++; trace_mix(0xF7); tracef("fwrite %s: error %d (injected)",o.path.c_str(),g_fwf_errno); errno=g_fwf_errno; return -1; }
+		if(g_fwf_skip>0) g_fwf_skip--; else { g_fwf_failing=true; if(g_fwf_errno==ENOSPC && all.size()>=P.file_short_min && all.size()>1 && frng.below(2)){ all.resize(1+frng.below(all.size()-1)); trace_mix(0xF8+all.size()); } else { S.file_write_failed++; trace_mix(0xF7); errno=g_fwf_errno; return -1; } } }
 	size_t k=all.size(); if(k>=P.file_short_min && k>1 && P.p_file_short && frng.chance(P.p_file_short)){ k=1+frng.below(k); S.file_short++; trace_mix(0xF4+k); all.resize(k); }
 	std::string &d=o.file->data; if(o.oflags&O_APPEND) o.pos=d.size();
 	FsEvent ev; ev.kind=FsEvent::WRITE; ev.path=o.path; ev.off=o.pos; ev.old_size=d.size(); ev.new_bytes=all;
